@@ -41,8 +41,8 @@ PLANS = {
     'C12': {'quick': [('control', 3, [G_NEAR, G_CJ]), ('values', 3, [G_NEAR, G_CJ]), ('far', 3, [G_J]), ('far', 4, [G_HILO]), ('literals', 2, [[]]), ('abs', 4, [[]]), ('oddalign', 4, [[]])],
             'thorough': [('control', 4, [G_NEAR, G_CB]), ('values', 4, [G_NEAR]), ('values', 3, [G_CJ, G_B, G_J]), ('far', 4, [G_CB, G_CJ, G_B, G_J, G_HILO]), ('literals', 3, [[]]),
                          ('abs', 5, [[]]), ('oddalign', 5, [[]])]},
-    'C20': {'quick': [('literals', 2, [[]]), ('control', 3, [G_NEAR, G_CJ]), ('aligns', 3, [[]])],
-            'thorough': [('literals', 3, [[]]), ('control', 4, [G_NEAR, G_CJ]), ('aligns', 4, [[]]), ('far', 4, [G_CB, G_J])]},
+    'C20': {'quick': [('literals', 2, [[]]), ('control', 3, [G_NEAR, G_CJ]), ('aligns', 3, [[]]), ('values', 3, [G_NEAR])],
+            'thorough': [('literals', 3, [[]]), ('control', 4, [G_NEAR, G_CJ]), ('aligns', 4, [[]]), ('far', 4, [G_CB, G_J]), ('values', 4, [G_NEAR])]},
 }
 RANDOM = {'quick': (600, 6, 30), 'thorough': (12000, 6, 40)}
 
@@ -86,6 +86,20 @@ def signature(prop, mode, clause, idx, rec):
                 reach = sum(6 if it['k'] in INSTR_LIKE else (it['n'] if it['k'] == 'align' else 0) for it in prog)
                 if v is not None and -2048 <= v <= 2047 and (v - reach < -2048 or v + reach > 2047):
                     sig['cause'] = 'label-value-at-range-edge'
+    if prop == 'C20' and clause in ('NotLonger', 'NeverLongerPerItem') and rec['nc']['status'] == 'ok' and rec['c']['status'] == 'ok':
+        # a li whose value GROWS when labels move down (n - L) crosses the 12-bit edge only in the compressed layout and takes its
+        # two-instruction form there: the li is 4 bytes without -c, 8 with it, and its uncompressed value is within reach of 2047
+        ns, cs, labels = rec['nc']['sizes'], rec['c']['sizes'], rec['nc']['labels']
+        reach = sum(6 if it['k'] in INSTR_LIKE else (it['n'] if it['k'] == 'align' else 0) for it in prog)
+        grown = [j for j, it in enumerate(prog) if cs[j] > ns[j]]
+        def edge(j):
+            it = prog[j]
+            if it['k'] != 'lil' or it['f'] != 'neg' or ns[j] != 4 or cs[j] != 8 or it['t'] not in labels:
+                return False
+            v = it['n'] - labels[it['t']]
+            return v <= 2047 < v + reach
+        if grown and all(edge(j) for j in grown) and (idx == 0 or (idx - 1) in grown):
+            sig['cause'] = 'label-value-at-range-edge'
     return sig
 
 
